@@ -136,6 +136,9 @@ def check(ctx):
     except mir.AnchorLost as e:
         ctx.fail("C06.b", "anchor-lost:EntityReactors::remove", "", str(e))
 
+    # ---- C06.f a table entry is deleted only when every list in it is empty ----
+    entry_removal_guarded(ctx, prog, path_fns)
+
     # ---- C06.c immediate: no deferral reachable from revoke_reactor ----
     bad = []
     for f in path_fns:
@@ -258,3 +261,127 @@ def event_arm_never_called(prog, f):
                     if ag["kind"] == "adt" and ag["adt"].endswith("::EntityReactionType") and ag["vname"] == "Event":
                         return False
     return True
+
+
+EMPTY_TESTS = ("is_empty", "len")
+
+
+def holder_fields_of(prog, adt_path):
+    adt = prog.adts.get(adt_path)
+    if not adt:
+        return []
+    return [f["name"] for v in adt["variants"] for f in v["fields"] if "ReactorHandle" in f["ty"] or "AutoDespawnSignal" in f["ty"]]
+
+
+def emptiness_heads(body, receiver_is):
+    """[(head block, field-or-None)] entered when an emptiness test on a list accepted by receiver_is(term) found it EMPTY"""
+    heads = []
+    for b, t, fr in body.iter_calls():
+        if fr is None or not t["args"]:
+            continue
+        n1 = lib.tail(mir.fn_name(fr), 1)
+        if n1 not in EMPTY_TESTS:
+            continue
+        tag = receiver_is(body, t)
+        if tag is None:
+            continue
+        if n1 == "is_empty":
+            for (sb, tt, ft) in lib.bool_arms(body, b):
+                heads.append((tt, tag))
+        else:
+            # len() compared with 0
+            for sb in sorted(body.reachable):
+                info = mir.switch_on(body, sb)
+                if not info or info["kind"] != "bin":
+                    continue
+                l, r = info["bin"]["l"], info["bin"]["r"]
+                if lib.const_val(r) != 0 or not lib.originates_from_call(body, l, b):
+                    continue
+                tg = info["targets"]
+                true_t = info["otherwise"] if 0 in tg else tg.get(1)
+                false_t = tg.get(0) if 0 in tg else info["otherwise"]
+                op = info["bin"]["op"]
+                if op in ("Eq", "Le"):
+                    heads.append((true_t, tag))
+                elif op in ("Ne", "Gt"):
+                    heads.append((false_t, tag))
+    return heads
+
+
+def all_empty_method(prog, m, holders):
+    """m is an emptiness predicate of an entry type: it returns true only when every holder list is empty"""
+    def recv(body, t):
+        for (adt, name), ch in lib.receiver_chains(body, t["args"][0]):
+            if name in holders:
+                return name
+        return None
+    heads = emptiness_heads(m, recv)
+    ok = True
+    n_true = 0
+    for b in sorted(m.reachable):
+        blk = m.blocks[b]
+        guaranteed = {tag for (h, tag) in heads if m.dominates(h, b)}
+        for st in blk["stmts"]:
+            if st["k"] == "assign" and st["place"]["l"] == 0 and not st["place"]["p"] and "use" in st["rv"]:
+                v = lib.const_val(st["rv"]["use"])
+                if v == 1:
+                    n_true += 1
+                    ok = ok and guaranteed >= set(holders)
+                elif v is None:
+                    ok = False
+        t = blk["term"]
+        if t["k"] == "call" and t["dest"]["l"] == 0 and not t["dest"]["p"]:
+            fr = op_fn(t["func"])
+            tag = recv(m, t) if fr and lib.tail(mir.fn_name(fr), 1) == "is_empty" else None
+            n_true += 1
+            ok = ok and tag is not None and (guaranteed | {tag}) >= set(holders)
+    return ok and n_true > 0
+
+
+def entry_removal_guarded(ctx, prog, path_fns):
+    n = 0
+    for f in path_fns:
+        if lib.impl_self_name(f) != "ReactCache":
+            continue
+        fk = lib.fkey(f)
+        for b, t, fr in f.iter_calls():
+            if not (fr and lib.tail(mir.fn_name(fr), 2) == "HashMap::remove"):
+                continue
+            tbl = lib.receiver_chains(f, t["args"][0])
+            tfield = tbl[0][0][1] if tbl else None
+            vty = (fr.get("args") or ["", ""])[1] if len(fr.get("args") or []) > 1 else ""
+            if "ReactorHandle" not in vty and not any(hf for hf in holder_fields_of(prog, vty)):
+                continue
+            n += 1
+            entry_holders = holder_fields_of(prog, vty)
+            if entry_holders:
+                # multi-list entry: guarded by an all-empty predicate of the entry type, or by tests of every list
+                heads = []
+                for b2, t2, cb in lib.local_call_bodies(prog, f):
+                    if lib.impl_self_path(cb) == vty and cb.local_ty(0) == "bool":
+                        if all_empty_method(prog, cb, entry_holders):
+                            for (sb, tt, ft) in lib.bool_arms(f, b2):
+                                heads.append((tt, "*"))
+                        ctx.touch(cb)
+                def recv(body, t3):
+                    for (adt, name), ch in lib.receiver_chains(body, t3["args"][0]):
+                        if adt == vty and name in entry_holders:
+                            return name
+                    return None
+                heads += emptiness_heads(f, recv)
+                got = {tag for (h, tag) in heads if f.dominates(h, b)}
+                ok = "*" in got or got >= set(entry_holders)
+                ctx.check(ok, "C06.f", "%s:entry-deleted-only-when-all-lists-empty" % fk, f.loc(b),
+                          "the %s entry is deleted only after every list in it (%s) was found empty" % (tfield, entry_holders),
+                          "the %s entry is deleted although only %s of its lists %s were found empty: registrations in the other lists are lost" % (tfield, sorted(got), entry_holders))
+            else:
+                def recv1(body, t3):
+                    src_rm = LP.coll_source(body, t3["args"][0])
+                    return "list" if src_rm and src_rm[0] == "table" and src_rm[1] == tfield else None
+                heads = emptiness_heads(f, recv1)
+                ok = any(f.dominates(h, b) for (h, tag) in heads)
+                ctx.check(ok, "C06.f", "%s:entry-deleted-only-when-list-empty" % fk, f.loc(b),
+                          "the %s entry is deleted only after its list was found empty" % tfield,
+                          "the %s entry is deleted without its list having been found empty: the other registrations under that key are lost" % tfield)
+    # no floor: a revoke path that never deletes entries cannot lose registrations this way (the rule is conditional)
+    ctx.ok("C06.f", "entry-deletions-enumerated", "", "%d map-entry deletion site(s) on the revoke path, each guarded" % n)
